@@ -78,7 +78,54 @@ def make_case(mod, verif_seed: int, tier: str, index: int) -> dict:
 
 
 def run_case(mod, case: dict) -> Outcome:
+    iso = getattr(mod, "isolate", None)
+    if iso is not None and iso(case) and os.environ.get("VERIF_NO_ISOLATE") != "1":
+        return _run_case_forked(mod, case)
     return mod.execute(case)
+
+
+def _run_case_forked(mod, case: dict) -> Outcome:
+    """Execute one case in a forked child and ship the Outcome back through a pipe.
+
+    Used for cases that inject I/O faults under the real HDF5 library: a file whose close
+    fails keeps its caches inside the C library for the life of the process (≈ 0.3 MB per
+    injected fault, gigabytes over a long batch); the child takes that memory with it. The
+    result is a pure function of the case either way.
+    """
+    import pickle
+
+    r, w = os.pipe()
+    pid = os.fork()
+    if pid == 0:  # child
+        status = 0
+        try:
+            os.close(r)
+            try:
+                payload = pickle.dumps(("ok", mod.execute(case)))
+            except BaseException:  # noqa: BLE001  (reported to the parent, never swallowed)
+                payload = pickle.dumps(("err", traceback.format_exc()))
+            with os.fdopen(w, "wb") as fh:
+                fh.write(payload)
+        except BaseException:  # noqa: BLE001
+            status = 3
+        finally:
+            os._exit(status)
+    os.close(w)
+    chunks = []
+    with os.fdopen(r, "rb") as fh:
+        while True:
+            b = fh.read(1 << 20)
+            if not b:
+                break
+            chunks.append(b)
+    _, st = os.waitpid(pid, 0)
+    data = b"".join(chunks)
+    if not data:
+        raise RuntimeError(f"isolated run died without a result (wait status {st})")
+    kind, val = pickle.loads(data)
+    if kind == "err":
+        raise RuntimeError("isolated run raised inside the harness:\n" + val)
+    return val
 
 
 def _record(index: int, case: dict, out: Outcome, keep_case: bool) -> dict:
@@ -433,7 +480,7 @@ def _main_batch(mod, prop, verif_seed, args, t_start) -> int:
 
     t0 = time.monotonic()
     records, exhausted = run_batch(prop, verif_seed, tier, indices, jobs, chunk,
-                                   sample_idx, budget)
+                                   sample_idx, budget, chunk_timeout=plan.get("chunk_timeout", 240))
     batch_s = time.monotonic() - t0
     if not records:
         raise HarnessError("no run completed within the budget")
